@@ -1036,6 +1036,8 @@ class sptensor:
             if not self.shape == other.shape:
                 assert False, "Must be tensors of the same shape"
 
+            if self.nnz == 0 or other.nnz == 0:
+                return sptensor(shape=self.shape)
             C = sptensor.from_aggregator(
                 np.vstack((self.subs, other.subs)),
                 np.vstack((self.vals, other.vals)),
@@ -1150,6 +1152,8 @@ class sptensor:
             assert False, "Logical Or requires tensors of the same size"
 
         if isinstance(other, ttb.sptensor):
+            if self.nnz == 0 or other.nnz == 0:
+                return (other if self.nnz == 0 else self).ones()
             C = sptensor.from_aggregator(
                 np.vstack((self.subs, other.subs)),
                 np.ones((self.subs.shape[0] + other.subs.shape[0], 1)),
@@ -1223,6 +1227,8 @@ class sptensor:
             if self.shape != other.shape:
                 assert False, "Logical XOR requires tensors of the same size"
 
+            if self.nnz == 0 or other.nnz == 0:
+                return (other if self.nnz == 0 else self).ones()
             subs = np.vstack((self.subs, other.subs))
             result = ttb.sptensor.from_aggregator(
                 subs, np.ones((len(subs), 1)), self.shape, lambda x: len(x) == 1
